@@ -10,7 +10,7 @@ package wh
 // changes the result), releases never outnumber allocations, and both runs perform the same number of
 // allocations and releases.
 // C12: for loops whose iterations leave nothing reachable, the number of live blocks and the heap top after
-// n = 6 and after n = 12 iterations are equal (a released block is reused one iteration later, so the first
+// n = 6, 12 and 24 iterations do not keep growing (a released block is reused one iteration later, so the first
 // two iterations are the warm-up).
 // The case tables (vfC11Cases, vfC12Cases) come from the file the driver generates.
 
